@@ -74,18 +74,19 @@ def check(ck: Checker) -> None:
     # ---------------------------------------------------------------- nometa
     dg = prog.func("hashfile.tree", "Tree.digest")
     gd = ck.cfg(dg)
-    hcalls = [(n, c) for n in gd.nodes.values() for c in calls_at(n) if call_name(c) == "hash_file"]
-    ck.floor("C03.nometa", len(hcalls), 1, "hash_file calls in Tree.digest")
-    hn, hc = hcalls[0]
-    hp = norm(hc.args[0])
-    pipes = [(n, c) for n in gd.nodes.values() for c in calls_at(n) if is_method_call(c, "pipe_file", "pipe") and len(c.args) >= 2]
-    hashed = [(n, c) for n, c in pipes if norm(c.args[0]) == hp]
-    ck.require(bool(hashed) and all(norm(c.args[1]) == "self.as_bytes()" for _n, c in hashed), "C03.nometa", dg, hn, "hashed bytes are the metadata-free listing",
-               f"the listing that is hashed is {[norm(c.args[1]) for _n, c in hashed]}: the directory id would depend on file metadata", construct="digest / hashed bytes without meta")
-    for n, c in pipes:
-        if "with_meta" in norm(c.args[1]):
-            ck.require(norm(c.args[0]) != hp and avoiding_path(gd, n.id, lambda x: x.id == hn.id) is None, "C03.nometa", dg, n, "with-meta bytes go to a separate file written after hashing", "the with-meta bytes are written to (or before) the hashed file")
-    ck.require(hc.args[1:2] and len(hc.args) >= 3 and norm(hc.args[2]) == "name" and not any(k.arg == "state" for k in hc.keywords), "C03.nometa", dg, hn, "digest hashes with the requested algorithm and no state cache", "digest() consults a state cache / another algorithm", construct="hash_file(path, memfs, name)")
+    from .tree_common import digest_model
+
+    dm = digest_model(ck)
+    ck.floor("C03.nometa", len(dm.hcalls), 1, "hash_file calls in Tree.digest")
+    hn, hc = dm.hn, dm.hc
+    hp = norm(dm.path) if dm.path is not None else None
+    hashed = [(n, a1) for n, _c, a0, a1 in dm.pipes if norm(a0) == hp]
+    ck.require(bool(hashed) and all(norm(a1) == "self.as_bytes()" for _n, a1 in hashed), "C03.nometa", dg, hn, "hashed bytes are the metadata-free listing",
+               f"the listing that is hashed is {[norm(a1) for _n, a1 in hashed]}: the directory id would depend on file metadata", construct="digest / hashed bytes without meta")
+    for n, _c, a0, a1 in dm.pipes:
+        if "with_meta" in norm(a1):
+            ck.require(norm(a0) != hp and avoiding_path(gd, n.id, lambda x: x.id == hn.id) is None, "C03.nometa", dg, n, "with-meta bytes go to a separate file written after hashing", "the with-meta bytes are written to (or before) the hashed file")
+    ck.require(dm.algo is not None and norm(dm.algo) == "name" and dm.state is None, "C03.nometa", dg, hn, "digest hashes with the requested algorithm and no state cache", "digest() consults a state cache / another algorithm", construct="hash_file(path, memfs, name)")
 
     # ---------------------------------------------------------------- bypath
     _keyfaithful(ck)
